@@ -602,19 +602,34 @@ structure Normalized where
   sources : List ResultColumn
   deriving DecidableEq, Repr, Inhabited
 
+/-- `add_colnames` leaves the set non-empty: the expression references some column. -/
+def Expr.hasColumn : Expr → Bool
+  | .col _ => true
+  | .const _ => false
+  | .f1 _ e => e.hasColumn
+  | .f2 _ a b => a.hasColumn || b.hasColumn
+  | .agg _ e => e.hasColumn
+
+/-- A sort key that references no column and contains no aggregate is the same for every row; since the
+    `fix:` for ORDER BY <constant>, `normalize` drops it
+    (`!(colnames.is_empty() && ensure_no_aggregates(expr).is_ok())`). -/
+def keepsOrderKey (e : Expr) : Bool :=
+  !(!e.hasColumn && (match ensureNoAggregates e with | .ok _ => true | _ => false))
+
 /-- `Query::normalize`. -/
 def normalize (q : Query) : Res Normalized :=
+  let orderBy := q.orderBy.filter fun ob => keepsOrderKey ob.1
   match normSelectLoop {} q.select with
   | .err x => .err x
   | .fault x => .fault x
   | .ok acc =>
       let nontrivialAggregateExpression := acc.finalProjection.any fun ci => !isColName ci.expr
-      let sortAfterAggregation := !acc.aggregate.isEmpty && !q.orderBy.isEmpty
+      let sortAfterAggregation := !acc.aggregate.isEmpty && !orderBy.isEmpty
       let requireFinalPass := sortAfterAggregation || nontrivialAggregateExpression
       if requireFinalPass then
         match normOrderLoop { select := acc.select, aggregate := acc.aggregate,
                               aggregateColnames := acc.aggregateColnames,
-                              selectColnames := acc.selectColnames } q.orderBy with
+                              selectColnames := acc.selectColnames } orderBy with
         | .err x => .err x
         | .fault x => .fault x
         | .ok oacc =>
@@ -625,7 +640,7 @@ def normalize (q : Query) : Res Normalized :=
                   sources := (List.range acc.finalProjection.length).map .proj }
       else
         .ok { main := { projection := acc.select, aggregate := acc.aggregate, filter := q.filter,
-                        orderBy := q.orderBy, limit := q.limit }
+                        orderBy := orderBy, limit := q.limit }
               final := none
               sources := acc.finalSelectOrdering }
 
